@@ -1415,6 +1415,8 @@ func (h *ResponseHeader) setSpecialHeader(key, value []byte) bool {
 			if contentLength, err := parseContentLength(value); err == nil {
 				h.contentLength = contentLength
 				h.contentLengthBytes = append(h.contentLengthBytes[:0], value...)
+				// Same as SetContentLength: a known length replaces chunked framing.
+				h.h = delAllArgsStable(h.h, HeaderTransferEncoding)
 			}
 			return true
 		case caseInsensitiveCompare(strContentEncoding, key):
